@@ -14,7 +14,7 @@ func init() { registry["C05"] = propC05 }
 func propC05() *Property {
 	return &Property{
 		ID:          "C05",
-		Explanation: "Static typestate, dominance and error-discipline rules on the fetch path. Decided: (R1) every connection obtained from net/crypto/tls is given a deadline derived from time.Now() and the configured timeout before any Write, Read or hand-off to a reader, on every path, and the deadline is not renewed inside a loop; (R2) in jtp, client, object and pub no error result is dropped: every one is returned, wrapped, converted into a failure item, stored next to its value or classified with errors.Is, and the values that came with it are used only where it is known to be nil (or travel together with it); (R3) a body that fails to decode never becomes a document (shared with C03.R1); (R4) pub.NewFailure is never called with a possibly-nil error (it panics). (R5) the response head is parsed from complete lines only: every recogniser input is result #0 of ReadString('\\n') with the error known nil at the use (same rule as C03.R7), so a head that is cut off, stalls or is reset inside a line ends in an error. (R6) package-level state on the fetch path is written by initialisers only and shared documents are never updated in place (C08.R6 run here: two concurrent faults must not be able to crash the process); (R7) every acquisition on a channel that outlives the call is released on every path to every return of the function, error paths included. (R1, addition) every dial goes through a net.Dialer (or DialTimeout) whose Timeout is config.Parsed.Network.Timeout itself, so connecting and the handshake are bounded too. (R8) every index into the pieces of a split text is within the number of pieces known at that point (C06.K9 run here: a garbage status line must not crash the fetch). Not decided: actual wall-clock bounds, kernel/TLS behaviour, what happens for a non-positive configured timeout (C19 demands its validation).",
+		Explanation: "Static typestate, dominance and error-discipline rules on the fetch path. Decided: (R1) every connection obtained from net/crypto/tls is given a deadline derived from time.Now() and the configured timeout before any Write, Read or hand-off to a reader, on every path, and the deadline is not renewed inside a loop; (R2) in jtp, client, object and pub no error result is dropped: every one is returned, wrapped, converted into a failure item, stored next to its value or classified with errors.Is, and the values that came with it are used only where it is known to be nil (or travel together with it); (R3) a body that fails to decode never becomes a document (shared with C03.R1); (R4) pub.NewFailure is never called with a possibly-nil error (it panics). (R5) the response head is parsed from complete lines only: every recogniser input is result #0 of ReadString('\\n') with the error known nil at the use (same rule as C03.R7), so a head that is cut off, stalls or is reset inside a line ends in an error. (R6) package-level state on the fetch path is written by initialisers only and shared documents are never updated in place (C08.R6 run here: two concurrent faults must not be able to crash the process); (R7) every acquisition on a channel that outlives the call is released on every path to every return of the function, error paths included. (R1, addition) every dial goes through a net.Dialer (or DialTimeout) whose Timeout is config.Parsed.Network.Timeout itself, so connecting and the handshake are bounded too. (R8) every index into the pieces of a split text is within the number of pieces known at that point (C06.K9 run here: a garbage status line must not crash the fetch). (R9) in package jtp no function makes two calls that reach the dialler on one path, nor one in a loop: one exchange per redirect hop (a retry wrapper would be re-entered by every hop and multiply). Not decided: actual wall-clock bounds, kernel/TLS behaviour, what happens for a non-positive configured timeout (C19 demands its validation).",
 		Assumptions: []string{
 			"net.Conn deadlines bound every subsequent Read/Write on the connection (library semantics)",
 			"encoding/json.Decoder reports an error for incomplete or trailing-garbage-free truncated objects",
@@ -28,6 +28,7 @@ func propC05() *Property {
 			{ID: "C05.R6", Title: "the fetch path keeps no unsynchronised shared state (concurrent faults cannot crash the process)", Floor: 28, Run: c08R6},
 			{ID: "C05.R8", Title: "garbage in a response cannot index past the pieces it was split into", Floor: 0, Run: splitIndexing},
 			{ID: "C05.R7", Title: "whatever a fetch may block on is released on every path, the error paths included", Floor: 0, Run: c05R7},
+			{ID: "C05.R9", Title: "one exchange per hop: no function of the fetcher dials twice on a path or in a loop", Floor: 1, Run: c05R9},
 		},
 	}
 }
@@ -982,4 +983,123 @@ func dialBounded(P *Program, call *ssa.Call) (bool, string) {
 		return false, "the dialer's Timeout is not the configured network timeout (the value that is validated as positive): if what it is set to can be zero, connecting and the TLS handshake have no time limit"
 	}
 	return true, ""
+}
+
+// c05R9: "timely" is one timeout per hop, and the hops are bounded by the
+// redirect budget (C03). That arithmetic holds only if a call of the fetcher
+// makes one exchange: in package jtp no function calls a function that reaches
+// the dialler twice on one path, nor in a loop — a retry wrapper around the
+// exchange is re-entered by every redirect hop and multiplies: n redirects in
+// front of a stalling host cost 2^(n+1) timeouts (seed C05-2r7).
+func c05R9(c *Ctx) {
+	P := c.P
+	// functions of the module that reach a dial
+	dials := func(fn *ssa.Function) bool {
+		found := false
+		eachInstr(fn, func(_ *ssa.BasicBlock, _ int, in ssa.Instruction) {
+			if cc := callOf(in); cc != nil {
+				if f := calleeObj(cc); f != nil && f.Pkg() != nil && (f.Pkg().Path() == "crypto/tls" || f.Pkg().Path() == "net") && strings.HasPrefix(f.Name(), "Dial") {
+					found = true
+				}
+			}
+		})
+		return found
+	}
+	reach := map[*ssa.Function]bool{}
+	for _, fn := range P.Funcs {
+		if dials(fn) {
+			reach[fn] = true
+		}
+	}
+	for changed := true; changed; {
+		changed = false
+		for _, fn := range P.Funcs {
+			if reach[fn] {
+				continue
+			}
+			eachInstr(fn, func(_ *ssa.BasicBlock, _ int, in ssa.Instruction) {
+				if reach[fn] {
+					return
+				}
+				if ci, ok := in.(ssa.CallInstruction); ok {
+					for _, callee := range P.Callees(ci) {
+						if reach[callee] {
+							reach[fn] = true
+							changed = true
+						}
+					}
+				}
+				if mc, ok := in.(*ssa.MakeClosure); ok && reach[mc.Fn.(*ssa.Function)] {
+					reach[fn] = true
+					changed = true
+				}
+			})
+		}
+	}
+	n := 0
+	for _, fn := range P.FuncsIn("servitor/jtp") {
+		if !reach[fn] || len(fn.Blocks) == 0 {
+			continue
+		}
+		fname := FuncName(fn)
+		// the calls of module functions that reach the dialler
+		sites := map[*ssa.BasicBlock][]ssa.Instruction{}
+		eachInstr(fn, func(b *ssa.BasicBlock, _ int, in ssa.Instruction) {
+			ci, ok := in.(ssa.CallInstruction)
+			if !ok {
+				return
+			}
+			for _, callee := range P.Callees(ci) {
+				if P.IsServitorFunc(callee) && reach[callee] {
+					sites[b] = append(sites[b], in)
+					return
+				}
+			}
+		})
+		if len(sites) == 0 {
+			continue
+		}
+		n++
+		heads := loopHeads(fn)
+		why := ""
+		for b, ins := range sites {
+			for h := range heads {
+				if h.Dominates(b) && blockReaches(b, h) {
+					why = "the exchange is started in a loop (" + P.InstrPos(ins[0]) + ")"
+				}
+			}
+		}
+		if why == "" {
+			for _, b := range fn.Blocks {
+				if _, isRet := b.Instrs[len(b.Instrs)-1].(*ssa.Return); !isRet {
+					continue
+				}
+				paths, complete := enumeratePaths(fn, b, 20000)
+				if !complete {
+					why = "too many paths to count the exchanges on"
+					break
+				}
+				for _, pf := range paths {
+					k := 0
+					var second ssa.Instruction
+					for _, pb := range pf.blocks {
+						for _, in := range sites[pb] {
+							k++
+							if k == 2 {
+								second = in
+							}
+						}
+					}
+					if k >= 2 {
+						why = "a second exchange is started on one path (" + P.InstrPos(second) + "): a retry or a second request per hop"
+					}
+				}
+				if why != "" {
+					break
+				}
+			}
+		}
+		c.check(why == "", fname+"/one-exchange", P.Pos(fn.Pos()), fname, "at most one call that reaches the dialler on any path, none in a loop", fname+": "+why+" — the time a fetch can take is no longer one timeout per redirect hop")
+	}
+	c.info("fetcher_functions", n)
 }
